@@ -145,6 +145,20 @@ def base_game(case):
                     if g.uniform() < zero_p:
                         continue
                     pred[:, :, a, b, x, y] = v
+    par = case.get("parity")
+    if par is not None:
+        # XOR-like structure (two answers each): the operator of (a, b | x, y) is kept when a xor b = par[x][y] and scaled
+        # by `leak` otherwise; with `common` every kept operator is one and the same W.  Games of this kind (CHSH-type
+        # parities) have an unentangled value that is NOT multiplicative under parallel repetition.
+        common = _rpsd(gen.rng(case["seed"] + 1), r, cplx, proj) if case.get("common") else None
+        for x in range(nx):
+            for y in range(ny):
+                for a in range(na):
+                    for b in range(nb):
+                        if common is not None:
+                            pred[:, :, a, b, x, y] = common
+                        if (a ^ b) != int(par[x][y]):
+                            pred[:, :, a, b, x, y] *= float(case.get("leak", 0.0))
     return prob, pred
 
 
